@@ -214,6 +214,9 @@ namespace pika::threads::coroutines {
 
                 m_sp[cb_idx] = this;
                 m_sp[funp_idx] = reinterpret_cast<void*>(funp);
+#  if defined(__x86_64__)
+                m_sp[fpu_ctrl_idx] = reinterpret_cast<void*>(default_fpu_ctrl);
+#  endif
 
 # if defined(PIKA_HAVE_VALGRIND) && !defined(NVALGRIND)
                 {
@@ -269,6 +272,9 @@ namespace pika::threads::coroutines {
                 fun* funp = trampoline<CoroutineImpl>;
                 m_sp[cb_idx] = this;
                 m_sp[funp_idx] = reinterpret_cast<void*>(funp);
+#  if defined(__x86_64__)
+                m_sp[fpu_ctrl_idx] = reinterpret_cast<void*>(default_fpu_ctrl);
+#  endif
 # if defined(PIKA_HAVE_ADDRESS_SANITIZER)
                 asan_stack_size = m_stack_size;
                 asan_stack_bottom = const_cast<void const*>(m_stack);
@@ -334,7 +340,7 @@ namespace pika::threads::coroutines {
              * 7:  rbp
              * 6:  rbx
              * 5:  rsi
-             * 4:  rdi
+             * 4:  rdi (unused), holds the MXCSR (low 32 bit) and the x87 control word
              * 3:  r12
              * 2:  r13
              * 1:  r14
@@ -347,6 +353,10 @@ namespace pika::threads::coroutines {
             static std::size_t const context_size = 12;
             static std::size_t const cb_idx = 10;
             static std::size_t const funp_idx = 8;
+            // a new context starts with the default floating point control state: MXCSR 0x1f80,
+            // x87 control word 0x037f
+            static std::size_t const fpu_ctrl_idx = 4;
+            static std::uintptr_t const default_fpu_ctrl = 0x0000037f00001f80ull;
 # else
             /** structure of context_data:
              * 7: valgrind_id (if enabled)
